@@ -151,6 +151,23 @@ def maximal_pieces(s: str, quote: str, upper: bool = False) -> list[Piece]:
     return out
 
 
+def alternating_pieces(s: str, quote: str, phase: int) -> list[Piece]:
+    """Minimal and maximal spellings alternate (raw `$` next to an escaped `{`, an escaped
+    backslash next to a raw character that would complete an escape, ...)."""
+    lo, hi = minimal_pieces(s, quote), maximal_pieces(s, quote)
+    # prefer \uXXXX over the short form on the escaped positions so both kinds are met
+    out: list[Piece] = []
+    for i, ch in enumerate(s):
+        if (i + phase) % 2:
+            out.append(lo[i])
+        else:
+            m = hi[i][1]
+            if m == "short" and ch not in "\\":
+                m = "u"
+            out.append((ch, m))
+    return out
+
+
 def random_pieces(s: str, quote: str, rng: random.Random) -> list[Piece]:
     return [(ch, rng.choice(modes_for(ch, quote))) for ch in s]
 
@@ -713,6 +730,9 @@ def _adversarial(h: Harness, spec: dict[str, Any]) -> None:
                 spellings = [minimal_pieces(s, quote), maximal_pieces(s, quote)]
                 if L:
                     spellings.append(random_pieces(s, quote, rng))
+                if L >= 2:
+                    spellings.append(alternating_pieces(s, quote, 0))
+                    spellings.append(alternating_pieces(s, quote, 1))
                     if thorough:
                         spellings.append(random_pieces(s, quote, rng))
                         spellings.append(maximal_pieces(s, quote, upper=True))
